@@ -93,27 +93,32 @@ func ruleC08b(c *Ctx, rule string) {
 				}
 			}
 		}
+		isOne := func(v ssa.Value) bool {
+			cst, ok := v.(*ssa.Const)
+			return ok && cst.Value != nil && cst.Value.String() == "1"
+		}
 		for _, ci := range findIfs(f, func(v ssa.Value) bool {
 			b, ok := v.(*ssa.BinOp)
-			if !ok || b.Op != token.EQL {
-				return false
-			}
-			_, isOne := b.Y.(*ssa.Const)
-			return isOne
+			return ok && (b.Op == token.EQL || b.Op == token.NEQ) && (isOne(b.X) || isOne(b.Y))
 		}) {
 			b := ci.v.(*ssa.BinOp)
-			if cst, ok := b.Y.(*ssa.Const); ok && cst.Value != nil && cst.Value.String() == "1" {
-				// X is row.Values[havingIdx]
-				if u, ok := b.X.(*ssa.UnOp); ok {
+			x := b.X
+			if isOne(b.X) {
+				x = b.Y
+			}
+			eqSide := b.Op == token.EQL // the successor on which the value equals 1
+			{
+				// x is row.Values[havingIdx]
+				if u, ok := x.(*ssa.UnOp); ok {
 					if ia, ok := u.X.(*ssa.IndexAddr); ok && ia.Index == idx {
 						// the ==1 side returns the row, the other nil
 						retRow, retNil := false, false
-						for bb := range reach([]*ssa.BasicBlock{ci.succFor(true)}, nil, nil) {
+						for bb := range reach([]*ssa.BasicBlock{ci.succFor(eqSide)}, nil, nil) {
 							if r, ok := bb.Instrs[len(bb.Instrs)-1].(*ssa.Return); ok && !isNilConst(r.Results[0]) {
 								retRow = true
 							}
 						}
-						for bb := range reach([]*ssa.BasicBlock{ci.succFor(false)}, nil, nil) {
+						for bb := range reach([]*ssa.BasicBlock{ci.succFor(!eqSide)}, nil, nil) {
 							if r, ok := bb.Instrs[len(bb.Instrs)-1].(*ssa.Return); ok {
 								retNil = isNilConst(r.Results[0])
 							}
